@@ -413,6 +413,16 @@ def c07(tier):
                         # the comparison with run applies where every response fits the N-byte response buffer as well
                         cases.append(procset_case(whole, N, [{"chunks": []}, {"chunks": [len(m) for m in ms]}, {"chunks": [1] * len(whole)}],
                                                   msgs=ms if max(rsize[m] for m in msgs) <= N else None))
+    # 2e. a hand-written Interface over two generated command sets whose root_node() changes at run time: every schedule and
+    #     run-one-at-a-time must agree (no declaration set describes it, so the judgement is differential: kind procdiff)
+    dv = ["MODE:B", "MODE:A", "VAL?", "ONLYA?", "ONLYB?", "SH:X?", "SH:Y?", "SH:SET 3", "SH:X?;Y?", "MODE:B;VAL?", "VAL?;:MODE:A", "Z?", ":VAL?"]
+    for _ in range(120 if tier == "quick" else 1500):
+        msgs = [m.encode("latin1") for m in random_history(s.rng, dv, s.rng.randint(2, 9), maxunits=2)]
+        whole = b"".join(msgs)
+        N = s.rng.choice([16, 32, 64])
+        c = procset_case(whole, N, variants_for(s.rng, len(whole), False), iface="dynr", msgs=msgs if msgs_fit(msgs, N) else None)
+        c["kind"] = "procdiff"
+        cases.append(c)
     recs = s.execute(cases, "c07")
     # the comparison with run (unbounded writer) is not owed for a session in which the responses to one message exceeded the
     # N-byte response buffer of process (-223 Too much data; the specification accepts that error only where they do not fit)
@@ -1098,9 +1108,9 @@ def set_desc(name, pool, chosen, std, err):
     return {"name": name, "attrs": attrs, "K": 4, "caps": [], "ns": [64], "cmds": cmds, "abs_only": True}
 
 
-def cargo_json(pkg, cwd):
+def cargo_json(pkg, cwd, release=True):
     env = dict(os.environ, CARGO_NET_OFFLINE="true")
-    r = subprocess.run(["cargo", "build", "--release", "--offline", "-p", pkg, "--message-format=json"], cwd=cwd, env=env,
+    r = subprocess.run(["cargo", "build"] + (["--release"] if release else []) + ["--offline", "-p", pkg, "--message-format=json"], cwd=cwd, env=env,
                        stdout=subprocess.PIPE, stderr=subprocess.PIPE, text=True)
     msgs = []
     for line in r.stdout.splitlines():
@@ -1275,22 +1285,26 @@ def tree_check(prop, tier):
         os.makedirs(os.path.join(C.HARNESS, "ambig", "src"), exist_ok=True)
         with open(os.path.join(C.HARNESS, "ambig", "src", "lib.rs"), "w") as f:
             f.write(src)
-        rc, msgs, err = cargo_json("ambig", C.HARNESS)
-        failed = {}
-        other = []
-        for m in msgs:
-            o = None
-            for ln in m["lines"]:
-                o = o or owner(aranges, ln)
-            if o and o.startswith("a"):
-                failed.setdefault(o, []).append(m["text"])
-            else:
-                other.append(m["text"])
-        if other and not failed:
-            raise C.ToolError("ambiguous crate failed for another reason: %s %s" % (other[:3], err))
+        # both build profiles: the proc-macro crate is compiled with debug assertions in one and without in the other
+        failed = None
+        for release in (True, False):
+            rc, msgs, err = cargo_json("ambig", C.HARNESS, release=release)
+            fl = {}
+            other = []
+            for m in msgs:
+                o = None
+                for ln in m["lines"]:
+                    o = o or owner(aranges, ln)
+                if o and o.startswith("a"):
+                    fl.setdefault(o, []).append(m["text"])
+                else:
+                    other.append(m["text"])
+            if other and not fl:
+                raise C.ToolError("ambiguous crate failed for another reason: %s %s" % (other[:3], err))
+            failed = fl if failed is None else {k: v for k, v in failed.items() if k in fl}
         for n, t, d in amods:
             if n not in failed:
-                p = C.write_replay("C14", "shadow-" + n, {"why": "two handlers share a spelling of the same kind, yet the set compiles",
+                p = C.write_replay("C14", "shadow-" + n, {"why": "two handlers share a spelling of the same kind, yet the set compiles (release or dev profile)",
                                                           "decls": [c["cmd"] for c in d["cmds"]], "attrs": d["attrs"], "kind": "compile"})
                 s.violations.append(("ambiguous set %s was accepted by the macro (one handler is shadowed)" % [c["cmd"] for c in d["cmds"]], p))
         s.cov["ambiguous_sets_rejected_by_macro"] = len(failed)
